@@ -14,6 +14,8 @@ import (
 
 	apierrors "k8s.io/apimachinery/pkg/api/errors"
 	"k8s.io/apimachinery/pkg/api/meta"
+	"k8s.io/apimachinery/pkg/fields"
+	"k8s.io/apimachinery/pkg/labels"
 	metav1 "k8s.io/apimachinery/pkg/apis/meta/v1"
 	"k8s.io/apimachinery/pkg/apis/meta/v1/unstructured"
 	k8sruntime "k8s.io/apimachinery/pkg/runtime"
@@ -51,6 +53,10 @@ var kinds = []kindInfo{
 	{schema.GroupVersionKind{Group: "example.com", Version: "v1", Kind: "Widget"}, "widgets", true, false},
 	{schema.GroupVersionKind{Group: "rbac.authorization.k8s.io", Version: "v1", Kind: "ClusterRole"}, "clusterroles", false, true},
 	{schema.GroupVersionKind{Group: "", Version: "v1", Kind: "Pod"}, "pods", true, true},
+	// workloads whose status readers look up GENERATED objects (Deployment > ReplicaSet > Pod)
+	// through the cluster reader: only used by the unschedulable:generated scripts
+	{schema.GroupVersionKind{Group: "apps", Version: "v1", Kind: "Deployment"}, "deployments", true, true},
+	{schema.GroupVersionKind{Group: "apps", Version: "v1", Kind: "ReplicaSet"}, "replicasets", true, true},
 }
 
 const (
@@ -58,6 +64,8 @@ const (
 	kCRD    = 1
 	kWidget = 4
 	kPod    = 6
+	kDeploy = 7
+	kRS     = 8
 )
 
 // ---- a dynamic client that honours request contexts -------------------------------
@@ -161,7 +169,26 @@ const variantSlow = 6
 // variantPodReady = Running and Ready (Current)
 const variantUnsched = 7
 const variantPodReady = 8
+
+// variantPodPending = Pending without any condition yet (InProgress, but not unschedulable)
+const variantPodPending = 10
+
+// variantPodGated = Pending, PodScheduled=False with another reason (SchedulingGated);
+// variantPodStarting = Pending, PodScheduled=True: both InProgress and NOT unschedulable
+const variantPodGated = 11
+const variantPodStarting = 12
+
+// variantPodOtherCond = Pending; a condition OTHER than PodScheduled is False with reason Unschedulable
+const variantPodOtherCond = 13
 const slowAnnotation = "verif.c16/slow-status-read"
+
+// variantErr: like variant 0, but the status computation of this version FAILS
+// with an ordinary (non-context) error, as a built-in reader does when a cluster
+// lookup is refused.  The handlers must turn that into the one fatal error event
+// and stop; the version itself is never reported (model: a payload without an
+// event, followed by the SFail step the script places right after it).
+const variantErr = 9
+const errAnnotation = "verif.c16/failing-status-read"
 
 // slowStatusReader wraps the default reader; see variantSlow.
 type slowStatusReader struct {
@@ -176,7 +203,24 @@ func (r *slowStatusReader) ReadStatusForObject(ctx context.Context, reader engin
 		atomic.AddInt64(r.act, 1)
 		return nil, ctx.Err()
 	}
+	if obj.GetAnnotations()[errAnnotation] == "true" {
+		atomic.AddInt64(r.act, 1)
+		return nil, fmt.Errorf("status read of %s refused", obj.GetName())
+	}
 	return r.StatusReader.ReadStatusForObject(ctx, reader, obj)
+}
+
+// recheckFailName: the delayed re-read (StatusReader.ReadStatus) of the Pod with this
+// name fails with an ordinary error -- a custom StatusReader may; the built-in readers
+// only fail with the context error
+const recheckFailName = "g"
+
+func (r *slowStatusReader) ReadStatus(ctx context.Context, reader engine.ClusterReader, id object.ObjMetadata) (*event.ResourceStatus, error) {
+	if id.GroupKind.Kind == "Pod" && id.Name == recheckFailName {
+		atomic.AddInt64(r.act, 1)
+		return nil, fmt.Errorf("re-read of %s refused", id.Name)
+	}
+	return r.StatusReader.ReadStatus(ctx, reader, id)
 }
 
 func buildObject(o oid, variant int) *unstructured.Unstructured {
@@ -190,18 +234,42 @@ func buildObject(o oid, variant int) *unstructured.Unstructured {
 	if variant == variantSlow {
 		u.SetAnnotations(map[string]string{slowAnnotation: "true"})
 	}
+	if variant == variantErr {
+		u.SetAnnotations(map[string]string{errAnnotation: "true"})
+	}
 	cond := func(t, s string) {
 		_ = unstructured.SetNestedSlice(u.Object, []interface{}{
 			map[string]interface{}{"type": t, "status": s, "reason": "r", "message": "m"},
 		}, "status", "conditions")
 	}
+	if o.gk == kDeploy || o.gk == kRS {
+		// one desired replica, no status yet (InProgress); selects the pods / replica
+		// sets labelled app=x of its namespace
+		u.SetLabels(map[string]string{"app": "x"})
+		_ = unstructured.SetNestedField(u.Object, int64(1), "spec", "replicas")
+		_ = unstructured.SetNestedStringMap(u.Object, map[string]string{"app": "x"}, "spec", "selector", "matchLabels")
+		return u
+	}
 	if o.gk == kPod {
+		u.SetLabels(map[string]string{"app": "x"})
 		u.SetCreationTimestamp(metav1.NewTime(time.Now()))
 		_ = unstructured.SetNestedSlice(u.Object, []interface{}{
 			map[string]interface{}{"name": "c", "image": "nginx"}}, "spec", "containers")
 		if variant == variantPodReady {
 			_ = unstructured.SetNestedField(u.Object, "Running", "status", "phase")
 			cond("Ready", "True")
+		} else if variant == variantPodPending {
+			_ = unstructured.SetNestedField(u.Object, "Pending", "status", "phase")
+		} else if variant == variantPodGated || variant == variantPodStarting || variant == variantPodOtherCond {
+			_ = unstructured.SetNestedField(u.Object, "Pending", "status", "phase")
+			c := map[string]interface{}{"type": "PodScheduled", "status": "False", "reason": "SchedulingGated", "message": "gated"}
+			if variant == variantPodStarting {
+				c = map[string]interface{}{"type": "PodScheduled", "status": "True"}
+			}
+			if variant == variantPodOtherCond {
+				c = map[string]interface{}{"type": "PodReadyToStartContainers", "status": "False", "reason": "Unschedulable"}
+			}
+			_ = unstructured.SetNestedSlice(u.Object, []interface{}{c}, "status", "conditions")
 		} else {
 			_ = unstructured.SetNestedField(u.Object, "Pending", "status", "phase")
 			_ = unstructured.SetNestedSlice(u.Object, []interface{}{
@@ -270,7 +338,7 @@ func payloadTerm(o oid, variant int) string {
 			def = fmt.Sprintf("(Some %d)", kWidget)
 		}
 	}
-	return fmt.Sprintf("(mkPayload %s %s %s)", st, def, emit.Bool(variant == variantSlow))
+	return fmt.Sprintf("(mkPayload %s %s %s)", st, def, emit.Bool(variant == variantSlow || variant == variantErr))
 }
 
 // ---- RESTMapper with a resettable cache -------------------------------------------
@@ -279,6 +347,9 @@ type dynMapper struct {
 	mu    sync.Mutex
 	truth map[int]bool // kinds the "API server" serves now
 	cache *meta.DefaultRESTMapper
+	// kinds whose RESTMapping lookup fails with an ordinary error (discovery is
+	// unreachable): not a NoMatch, so the informer cannot be started -> fatal
+	failKinds map[int]bool
 }
 
 func newDynMapper(truth map[int]bool) *dynMapper {
@@ -337,6 +408,11 @@ func (m *dynMapper) ResourcesFor(r schema.GroupVersionResource) ([]schema.GroupV
 	return m.cur().ResourcesFor(r)
 }
 func (m *dynMapper) RESTMapping(gk schema.GroupKind, versions ...string) (*meta.RESTMapping, error) {
+	for k, on := range m.failKinds {
+		if on && kinds[k].gvk.GroupKind() == gk {
+			return nil, fmt.Errorf("discovery of %s failed: connection refused", gk)
+		}
+	}
 	return m.cur().RESTMapping(gk, versions...)
 }
 func (m *dynMapper) RESTMappings(gk schema.GroupKind, versions ...string) ([]*meta.RESTMapping, error) {
@@ -427,10 +503,39 @@ type rscript struct {
 		variant int
 	}
 	forbid map[int]bool // kinds whose LIST is Forbidden
+	// kinds whose RESTMapping lookup fails with an ordinary error (not NoMatch)
+	mapperErr map[int]bool
 	steps  []rstep
 	// statuses the DELAYED re-check (status.ScheduleWindow after an unschedulable
 	// pod was seen) must report after the "tick" step, per object
 	late map[oid][]string
+	// filters: DefaultStatusWatcher.Filters is set (bit 0: a label selector that every object
+	// of the script satisfies, bit 1: a field selector that every object satisfies), so the
+	// events must be those of an unfiltered watch, and every LIST and WATCH request the
+	// informers issue must carry the configured selectors (observed at the fake API server)
+	filters int
+}
+
+const filterLabelKey, filterLabelValue = "verif.c16/selected", "yes"
+const filterFieldSelector = "metadata.name!=excluded-by-field-selector"
+
+// preReadErrors: watched objects that exist when Watch is called and whose status
+// read fails: the initial listing reports the fatal error before any sync (the
+// generators only put such objects under kinds that are served and not gated by
+// a watched Namespace / CRD object).
+func (sc *rscript) preReadErrors() int {
+	n := 0
+	for _, p := range sc.pre {
+		if p.variant != variantErr {
+			continue
+		}
+		for _, w := range sc.watched {
+			if w == p.id {
+				n++
+			}
+		}
+	}
+	return n
 }
 
 type revent struct {
@@ -449,6 +554,8 @@ type robs struct {
 	marks      []int // number of events received when each step began
 	tickMark   int   // events received when the wait for the delayed re-check began (-1: no such wait)
 	deadCtx    int64 // requests the client refused because their context was done
+	badSel     int64 // LIST / WATCH requests that did not carry the configured selectors
+	badSelMsg  string
 }
 
 func idOf(m object.ObjMetadata) (oid, bool) {
@@ -514,8 +621,39 @@ func runReporterScript(sc *rscript) (obs *robs) {
 	for k, on := range sc.forbid {
 		forbid[k] = on
 	}
+	var selMu sync.Mutex
+	checkSel := func(verb string, a clienttesting.Action, r clienttesting.ListRestrictions) {
+		if sc.filters == 0 {
+			return
+		}
+		wantL, wantF := "", ""
+		if sc.filters&1 != 0 {
+			wantL = filterLabelKey + "=" + filterLabelValue
+		}
+		if sc.filters&2 != 0 {
+			wantF = filterFieldSelector
+		}
+		gotL, gotF := "", ""
+		if r.Labels != nil {
+			gotL = r.Labels.String()
+		}
+		if r.Fields != nil {
+			gotF = r.Fields.String()
+		}
+		if gotL != wantL || gotF != wantF {
+			selMu.Lock()
+			obs.badSel++
+			if obs.badSelMsg == "" {
+				obs.badSelMsg = fmt.Sprintf("%s %s labels=%q (want %q) fields=%q (want %q)", verb, a.GetResource().Resource, gotL, wantL, gotF, wantF)
+			}
+			selMu.Unlock()
+		}
+	}
 	client.PrependReactor("*", "*", func(a clienttesting.Action) (bool, k8sruntime.Object, error) {
 		atomic.AddInt64(&act, 1)
+		if la, ok := a.(clienttesting.ListAction); ok && a.GetVerb() == "list" {
+			checkSel("LIST", a, la.GetListRestrictions())
+		}
 		if a.GetVerb() == "list" {
 			forbidMu.Lock()
 			defer forbidMu.Unlock()
@@ -537,6 +675,10 @@ func runReporterScript(sc *rscript) (obs *robs) {
 	watchCount := make([]int64, len(kinds))
 	client.PrependWatchReactor("*", func(a clienttesting.Action) (bool, watch.Interface, error) {
 		atomic.AddInt64(&act, 1)
+		if wa, ok := a.(clienttesting.WatchAction); ok {
+			wr := wa.GetWatchRestrictions()
+			checkSel("WATCH", a, clienttesting.ListRestrictions{Labels: wr.Labels, Fields: wr.Fields})
+		}
 		kind := -1
 		for k, ki := range kinds {
 			if ki.resource == a.GetResource().Resource && ki.gvk.Group == a.GetResource().Group {
@@ -579,6 +721,14 @@ func runReporterScript(sc *rscript) (obs *robs) {
 			uids[id] = fmt.Sprintf("uid-%d", rv)
 		}
 		u.SetUID(types.UID(uids[id]))
+		if sc.filters&1 != 0 {
+			l := u.GetLabels()
+			if l == nil {
+				l = map[string]string{}
+			}
+			l[filterLabelKey] = filterLabelValue
+			u.SetLabels(l)
+		}
 	}
 
 	truth := map[int]bool{}
@@ -598,6 +748,7 @@ func runReporterScript(sc *rscript) (obs *robs) {
 		}
 	}
 	mapper := newDynMapper(truth)
+	mapper.failKinds = sc.mapperErr
 
 	ids := object.ObjMetadataSet{}
 	for _, w := range sc.watched {
@@ -613,6 +764,19 @@ func runReporterScript(sc *rscript) (obs *robs) {
 	defer func() { obs.deadCtx = atomic.LoadInt64(&dead) }()
 	w := watcher.NewDefaultStatusWatcher(&ctxClient{Interface: client, dead: &dead}, mapper)
 	w.StatusReader = &slowStatusReader{StatusReader: statusreaders.NewDefaultStatusReader(mapper), act: &act}
+	if sc.filters != 0 {
+		w.Filters = &watcher.Filters{}
+		if sc.filters&1 != 0 {
+			w.Filters.Labels = labels.SelectorFromSet(labels.Set{filterLabelKey: filterLabelValue})
+		}
+		if sc.filters&2 != 0 {
+			fs, err := fields.ParseSelector(filterFieldSelector)
+			if err != nil {
+				panic(err)
+			}
+			w.Filters.Fields = fs
+		}
+	}
 	ch := w.Watch(ctx, ids, watcher.Options{RESTScopeStrategy: strategy})
 
 	var mu sync.Mutex
@@ -672,6 +836,10 @@ func runReporterScript(sc *rscript) (obs *robs) {
 	for _, on := range sc.forbid {
 		expectFail = expectFail || on
 	}
+	expectFail = expectFail || sc.preReadErrors() > 0
+	for _, on := range sc.mapperErr {
+		expectFail = expectFail || on
+	}
 	for _, s := range sc.steps {
 		if s.kind == "forbid" {
 			forbidMu.Lock()
@@ -689,7 +857,7 @@ func runReporterScript(sc *rscript) (obs *robs) {
 			expectFail = true
 			select {
 			case <-closedCh:
-			case <-time.After(20 * time.Second):
+			case <-time.After(20*time.Second + status.ScheduleWindow):
 				gaveUp = true
 			}
 			continue
@@ -913,6 +1081,33 @@ func reporterCorpus() []*rscript {
 			&rscript{label: "gap:namespace-kind", root: root, watched: []oid{ns1, sec(1, 1)},
 				pre:   []preObj{{ns1, 0}, {sec(1, 1), 0}},
 				steps: []rstep{{"break", ns1, 0}, {"delete", ns1, 0}, {"relist", ns1, 0}, {"update", sec(1, 1), 1}}},
+		)
+	}
+	// a status read that fails with an ordinary error (not a cancellation) is fatal:
+	// one error event, then the stop -- from AddFunc (new object, initial listing)
+	// and from UpdateFunc; a failing read of an UNWATCHED object is never attempted
+	for _, root := range []bool{true, false} {
+		l = append(l,
+			&rscript{label: "read-error:update", root: root, watched: []oid{sec(1, 1), cm(1, 1)},
+				pre: []preObj{{sec(1, 1), 1}, {sec(1, 2), 0}},
+				steps: []rstep{{"add", cm(1, 1), 0}, {"update", sec(1, 2), variantErr}, {"update", sec(1, 1), 0},
+					{"update", sec(1, 1), variantErr}, {"fail", oid{}, 0}, {"update", cm(1, 1), 1}, {"update", sec(1, 1), 2}}},
+			&rscript{label: "read-error:add", root: root, watched: []oid{sec(1, 1), sec(2, 1)},
+				steps: []rstep{{"add", sec(2, 1), 2}, {"add", sec(2, 2), variantErr}, {"add", sec(1, 1), variantErr}, {"fail", oid{}, 0},
+					{"delete", sec(2, 1), 0}}},
+			&rscript{label: "read-error:listing", root: root, watched: []oid{sec(1, 1), cm(1, 1)},
+				pre:   []preObj{{sec(1, 2), variantErr}, {sec(1, 1), variantErr}},
+				steps: []rstep{{"add", cm(1, 1), 1}}},
+		)
+	}
+	// the RESTMapper cannot resolve a watched kind for a reason other than NoMatch
+	// (discovery unreachable): the informer cannot be built -> one error event, stop
+	for _, root := range []bool{true, false} {
+		l = append(l,
+			&rscript{label: "mapper-error:one", root: root, watched: []oid{cm(1, 1), sec(1, 1)}, mapperErr: map[int]bool{3: true},
+				steps: []rstep{{"add", cm(1, 1), 0}}},
+			&rscript{label: "mapper-error:several", root: root, watched: []oid{cm(1, 1), sec(1, 1), sec(2, 1), {5, 0, 1}, wid(1, 1)},
+				mapperErr: map[int]bool{3: true, 5: true, kWidget: true}, steps: []rstep{{"add", sec(1, 1), 0}}},
 		)
 	}
 	for _, root := range []bool{true, false} {
@@ -1145,6 +1340,53 @@ func genBenignThenFatal(r *rand.Rand) *rscript {
 	return sc
 }
 
+// genReadError: plain objects of kinds served without a CRD, in namespaces whose
+// Namespace object is not watched (so every watch runs throughout); ordinary
+// mutations, failing reads of unwatched objects (never attempted), then ONE failing
+// read of a watched object through an add or an update: the fatal error is due.
+// Afterwards nothing is reported.
+func genReadError(r *rand.Rand) *rscript {
+	sc := &rscript{label: "read-error:generated", root: r.Intn(2) == 0}
+	pool := []oid{{2, 1, 1}, {3, 1, 1}, {3, 1, 2}, {3, 2, 1}, {5, 0, 1}, {2, 2, 2}}
+	r.Shuffle(len(pool), func(i, j int) { pool[i], pool[j] = pool[j], pool[i] })
+	nw := 2 + r.Intn(2)
+	sc.watched = append(sc.watched, pool[:nw]...)
+	exists := map[oid]bool{}
+	for _, id := range pool {
+		if r.Intn(3) == 0 {
+			sc.pre = append(sc.pre, preObj{id, r.Intn(nVariants)})
+			exists[id] = true
+		}
+	}
+	mut := func(id oid, v int) {
+		if exists[id] {
+			sc.steps = append(sc.steps, rstep{"update", id, v})
+		} else {
+			sc.steps = append(sc.steps, rstep{"add", id, v})
+			exists[id] = true
+		}
+	}
+	noise := func(n int) {
+		for ; n > 0; n-- {
+			id := pool[r.Intn(len(pool))]
+			switch {
+			case exists[id] && r.Intn(4) == 0:
+				sc.steps = append(sc.steps, rstep{"delete", id, 0})
+				exists[id] = false
+			case r.Intn(5) == 0 && id != pool[0] && id != pool[1] && (nw < 3 || id != pool[2]):
+				mut(id, variantErr) // unwatched: filtered before the read
+			default:
+				mut(id, r.Intn(nVariants))
+			}
+		}
+	}
+	noise(r.Intn(5))
+	mut(sc.watched[r.Intn(nw)], variantErr)
+	sc.steps = append(sc.steps, rstep{"fail", oid{}, 0})
+	noise(r.Intn(3))
+	return sc
+}
+
 // genGapScript: mutations of watched and unwatched objects of one kind while the
 // watch connections of that kind are broken, then a 410 re-list, then more
 // mutations; other kinds keep being observed normally.
@@ -1240,15 +1482,51 @@ func unschedulableScripts(tier string) []*rscript {
 			other := oid{kPod, 2, 1}
 			tick := rstep{kind: "tick"}
 			l = append(l,
-				&rscript{label: "unschedulable:stays", root: root, watched: []oid{pod, {3, 1, 1}},
-					steps: []rstep{{"add", pod, variantUnsched}, {"add", other, variantUnsched}, {"add", oid{3, 1, 1}, 0}, tick},
-					late:  map[oid][]string{pod: {"SFailed"}}},
+				// (a watched object that is merely InProgress -- Secret b, Reconciling -- gets no re-check)
+				// and neither does a pod that is Pending without an Unschedulable condition -- Pod c)
+				// nor one whose PodScheduled condition is False for another reason (Pod d) or True (Pod e)
+				&rscript{label: "unschedulable:stays", root: root,
+					watched: []oid{pod, {3, 1, 1}, {3, 1, 2}, {kPod, 1, 3}, {kPod, 1, 4}, {kPod, 1, 5}, {kPod, 1, 6}},
+					steps: []rstep{{"add", pod, variantUnsched}, {"add", other, variantUnsched}, {"add", oid{3, 1, 1}, 0},
+						{"add", oid{3, 1, 2}, 4}, {"add", oid{kPod, 1, 3}, variantPodPending},
+						{"add", oid{kPod, 1, 4}, variantPodGated}, {"add", oid{kPod, 1, 5}, variantPodStarting},
+						{"add", oid{kPod, 1, 6}, variantPodOtherCond}, tick},
+					late: map[oid][]string{pod: {"SFailed"}}},
 				&rscript{label: "unschedulable:scheduled-in-time", root: root, watched: []oid{pod},
 					steps: []rstep{{"add", pod, variantUnsched}, {"update", pod, variantPodReady}, tick}},
 				&rscript{label: "unschedulable:deleted-in-time", root: root, watched: []oid{pod},
 					steps: []rstep{{"add", pod, variantUnsched}, {"delete", pod, 0}, tick}},
 				&rscript{label: "unschedulable:cancelled-in-time", root: root, watched: []oid{pod},
 					steps: []rstep{{"add", pod, variantUnsched}, {"cancel", oid{}, 0}, tick}},
+			)
+		}
+	}
+	// "Gives unschedulable Pods (and objects that generate them) a grace period": a watched
+	// Deployment / ReplicaSet whose GENERATED pod (found by the status reader through the
+	// cluster reader, not watched itself) is unschedulable is re-read after the window and
+	// reported once more (its own status is still InProgress); with a scheduled pod there is
+	// no re-check.  After the four Pod families, so that the C08 side keeps its quick set.
+	for rep := 0; rep < n; rep++ {
+		for _, root := range []bool{true, false} {
+			pod, rs, dep := oid{kPod, 1, 1}, oid{kRS, 1, 1}, oid{kDeploy, 1, 1}
+			tick := rstep{kind: "tick"}
+			top := []oid{dep, rs}[(rep+b2i(root))%2]
+			l = append(l,
+				&rscript{label: "unschedulable:generated", root: root, watched: []oid{top},
+					steps: []rstep{{"add", pod, variantUnsched}, {"add", rs, 0}, {"add", dep, 0}, tick},
+					// the ReplicaSet reader folds a Failed pod into the ReplicaSet's own status; the
+					// Deployment's status is computed from the Deployment alone (observed on the real code)
+					late: map[oid][]string{top: {map[oid]string{dep: "SInProgress", rs: "SFailed"}[top]}}},
+				&rscript{label: "unschedulable:generated-scheduled", root: root, watched: []oid{top},
+					steps: []rstep{{"add", pod, variantPodReady}, {"add", rs, 0}, {"add", dep, 0}, tick}},
+				// a pod that BECOMES unschedulable through an update (UpdateFunc schedules the re-check)
+				// the re-check itself fails (ordinary error from the StatusReader): fatal -- one
+				// error event and the stop, about ScheduleWindow after the pod was seen
+				&rscript{label: "unschedulable:recheck-fails", root: root, watched: []oid{{kPod, 1, 7}, {3, 1, 1}},
+					steps: []rstep{{"add", oid{3, 1, 1}, 0}, {"add", oid{kPod, 1, 7}, variantUnsched}, {"fail", oid{}, 0}}},
+				&rscript{label: "unschedulable:by-update", root: root, watched: []oid{pod},
+					steps: []rstep{{"add", pod, variantPodReady}, {"update", pod, variantUnsched}, tick},
+					late:  map[oid][]string{pod: {"SFailed"}}},
 			)
 		}
 	}
@@ -1285,11 +1563,12 @@ func (sc *rscript) caseTerm(o *robs) (string, string) {
 		}
 		if !seenT[t] {
 			seenT[t] = true
-			if sc.forbid[w.gk] {
+			if sc.forbid[w.gk] || sc.mapperErr[w.gk] {
 				nFail++
 			}
 		}
 	}
+	nFail += sc.preReadErrors()
 	for i := 0; i < nFail; i++ {
 		steps = append(steps, "SFail")
 	}
@@ -1360,6 +1639,11 @@ func (sc *rscript) caseTerm(o *robs) (string, string) {
 			ftxt = append(ftxt, kinds[k].gvk.Kind)
 		}
 	}
+	for k, on := range sc.mapperErr {
+		if on {
+			ftxt = append(ftxt, "(RESTMapping fails: "+kinds[k].gvk.Kind+")")
+		}
+	}
 	sort.Strings(ftxt)
 	tick := len(o.events)
 	if o.tickMark >= 0 {
@@ -1377,6 +1661,9 @@ func (sc *rscript) caseTerm(o *robs) (string, string) {
 	term := fmt.Sprintf("(mkRCase (mkConfig %s %s %s) %s %s %s %s %d %s %s %d %s)", scope, emit.List(watched), emit.NatList(builtin),
 		emit.List(pre), emit.List(steps), emit.List(evs), emit.Bool(o.closed), o.unknown, emit.NatList(o.marks), emit.Bool(o.selfClosed),
 		tick, emit.List(late))
+	if sc.filters != 0 {
+		ftxt = append(ftxt, fmt.Sprintf("(Filters: %s)", []string{"", "labels", "fields", "labels+fields"}[sc.filters]))
+	}
 	text := fmt.Sprintf("watcher[%s] scope=%s watched=[%s] pre=[%s] forbidden=[%s] steps=[%s] -> events=[%s] closed=%v",
 		sc.label, strings.TrimPrefix(scope, "Scope"), strings.Join(wtxt, ","), strings.Join(ptxt, ","), strings.Join(ftxt, ","),
 		strings.Join(txt, "; "), strings.Join(etxt, " "), fmt.Sprintf("%v self-closed=%v events-before-wait=%d", o.closed, o.selfClosed, tick))
@@ -1416,6 +1703,16 @@ func runReporter(r *rand.Rand, tier, outDir string, sum *emit.Summary) error {
 	}
 	for i := 0; i < nRandom/6; i++ {
 		scripts = append(scripts, genGapScript(r))
+	}
+	for i := 0; i < nRandom/10; i++ {
+		scripts = append(scripts, genReadError(r))
+	}
+	// every fourth script runs with DefaultStatusWatcher.Filters set (selectors that all its
+	// objects satisfy): same events, and the requests must carry the selectors
+	for i, sc := range scripts {
+		if i%4 == 1 {
+			sc.filters = 1 + (i/4)%3
+		}
 	}
 	// A panic in an informer goroutine normally kills the process (client-go's
 	// HandleCrash re-panics).  Keep the process alive so that the script gets its
@@ -1492,6 +1789,11 @@ func runReporter(r *rand.Rand, tier, outDir string, sum *emit.Summary) error {
 		}
 		if !o.closed {
 			sum.ImplFailures = append(sum.ImplFailures, "watcher: event channel not closed 30s after cancel: "+text)
+		}
+		if o.badSel > 0 {
+			sum.ImplFailures = append(sum.ImplFailures, fmt.Sprintf(
+				"watcher: %d LIST/WATCH requests of the informers did not carry the selectors of DefaultStatusWatcher.Filters (first: %s) in %s",
+				o.badSel, o.badSelMsg, text))
 		}
 		cf.Add(term, text)
 		terms = append(terms, term)
